@@ -57,6 +57,8 @@ def pipeline_job(comm, nprocs, eta, p, ncells, r0, coefs, gfun, phifun, m0, trig
     from pygyro.model.layout import getLayoutHandler
     from pygyro.poisson.poisson_solver import DiffEqSolver
     from pygyro.splines import splines as spl
+    from mpi4py import MPI as _M
+    MPI_MAX = _M.MAX
     rk = comm.Get_rank()
     A, B, C, D = coefs
     basis = spl.BSplines(spl.make_knots(np.arange(ncells + 1, dtype=float) + r0, p, False), p, False, False)
@@ -84,9 +86,12 @@ def pipeline_job(comm, nprocs, eta, p, ncells, r0, coefs, gfun, phifun, m0, trig
     rho.setLayout("mode_solve")
     phi.setLayout("mode_solve")
     ml = h1.getLayout("mode_solve")
-    nz_modes = [int(I) for i, I in enumerate(range(ml.starts[0], ml.ends[0])) if np.max(np.abs(rho.getAllData()[i])) > 1e-9]
+    # "non-zero" relative to the size of the data (the transform leaves rounding noise of 1e-16 * scale in the other modes)
+    sc_r = comm.allreduce(float(np.max(np.abs(rho.getAllData()))) if rho.getAllData().size else 0.0, op=MPI_MAX)
+    nz_modes = [int(I) for i, I in enumerate(range(ml.starts[0], ml.ends[0])) if np.max(np.abs(rho.getAllData()[i])) > 1e-9 * max(1.0, sc_r)]
     solver.solveEquation(phi, rho)
-    nz_phi = [int(I) for i, I in enumerate(range(ml.starts[0], ml.ends[0])) if np.max(np.abs(phi.getAllData()[i])) > 1e-9]
+    sc_p = comm.allreduce(float(np.max(np.abs(phi.getAllData()))) if phi.getAllData().size else 0.0, op=MPI_MAX)
+    nz_phi = [int(I) for i, I in enumerate(range(ml.starts[0], ml.ends[0])) if np.max(np.abs(phi.getAllData()[i])) > 1e-9 * max(1.0, sc_p)]
     phi.setLayout("v_parallel_2d")
     rho.setLayout("v_parallel_2d")
     solver.findPotential(phi)
